@@ -16,7 +16,8 @@ ASSUMPTIONS = ['float results may exceed a bound by 1e-9 * max(1, |min|, |max|) 
                'fractional ranges - float noise, not a range error); ints must be exact ints in range',
                'Part 2 compares with the real decoder output (checked in Part 1) and with the declared defaults / passed dict']
 MIN_OBS = {'decodes': 50000, 'declarations': 200, 'monotone_pairs': 50000, 'hp_sessions': 30, 'hp_observations': 500,
-           'declarations_with_zero_default': 4}
+           'declarations_with_zero_default': 4, 'decodes_with_repeated_letters': 2000,
+           'session_dnas_with_repeated_letters': 1}
 EXHAUSTIVE_NOTE = 'Part 1 enumerates every letter of the alphabet at every gene position for every generated declaration'
 ALPHABET = r'()*+,-./0123456789:;<=>?@ABCDEFGHIJKLMNOPQRSTUVWXYZ[\]^_`abcdefghijklmnopqrstuvw'
 
@@ -61,11 +62,20 @@ def _part1(job):
                 filler[pos] = ch
                 dna = ''.join(filler)
                 try:
-                    v = jh.dna_to_hp(hps, dna)['target']
+                    full = jh.dna_to_hp(hps, dna)
                 except Exception as ex:
                     viol.append({'key': f'decode_raises:{type(ex).__name__}', 'msg': f'{ex!r}', 'witness': {'decl': d, 'dna': dna}})
                     break
                 cnt['decodes'] = cnt.get('decodes', 0) + 1
+                # one value per declared hyperparameter, under its own name (letters may repeat inside a DNA)
+                if len(set(dna)) < len(dna):
+                    cnt['decodes_with_repeated_letters'] = cnt.get('decodes_with_repeated_letters', 0) + 1
+                if sorted(full) != sorted(h['name'] for h in hps):
+                    if sum(1 for x in viol if x['key'] == 'decoded_names_differ_from_declared') < 2:
+                        viol.append({'key': 'decoded_names_differ_from_declared', 'msg': f'{dna!r} -> {sorted(full)}',
+                                     'witness': {'decl': d, 'dna': dna, 'position': pos}})
+                    break
+                v = full['target']
 
                 def bad(key, msg):
                     if sum(1 for x in viol if x['key'] == key) < 2:
@@ -80,7 +90,10 @@ def _part1(job):
                 # depends only on the gene at that position
                 filler2 = [rng.choice(ALPHABET) for _ in range(4)]
                 filler2[pos] = ch
-                v2 = jh.dna_to_hp(hps, ''.join(filler2))['target']
+                try:
+                    v2 = jh.dna_to_hp(hps, ''.join(filler2)).get('target', 'missing')
+                except Exception as ex:
+                    v2 = f'raised {ex!r}'
                 if v2 != v:
                     bad('decoded_value_depends_on_other_genes', f'{dna!r} -> {v!r}, {"".join(filler2)!r} -> {v2!r}')
                 if prev is not None:
@@ -94,6 +107,28 @@ def _part1(job):
                     bad('last_letter_not_max', f'{d}: last letter -> {v!r}')
             sigs.append(repr((d['type'], round(d['min'], 6), round(d['max'], 6), pos)))
     return {'viol': viol, 'cnt': cnt, 'sigs': sigs, 'sample': {'part': 1, 'declarations_head': decls[:3]} if job['i'] == 0 else None}
+
+
+def _ref_decode(decl, dna):
+    # the check's own decoder: gene i belongs to declaration i; letters 40..119 map linearly onto [min, max]
+    out = {}
+    for i, h in enumerate(decl):
+        x = (ord(dna[i]) - 40) * (h['max'] - h['min']) / 79 + h['min']
+        out[h['name']] = int(round(x)) if h['type'] is int else x
+    return out
+
+
+def _same_hp(got, exp):
+    if sorted(got) != sorted(exp):
+        return False
+    for k, x in exp.items():
+        y = got[k]
+        if isinstance(x, float):
+            if not isinstance(y, float) or abs(x - y) > 1e-12 * max(1.0, abs(x)):
+                return False
+        elif type(y) is not type(x) or x != y:
+            return False
+    return True
 
 
 def _part2(job):
@@ -129,6 +164,10 @@ def _part2(job):
             if any(h['default'] == 0 for h in decl):
                 cnt['declarations_with_zero_default'] = cnt.get('declarations_with_zero_default', 0) + 1
         dna = ''.join(rng.choice(ALPHABET) for _ in decl) if (has_dna and decl) else ''
+        if dna and len(dna) > 1 and rng.random() < 0.85:
+            # the same letter in several positions: every gene still belongs to its own declaration
+            k = rng.randrange(1, len(dna))
+            dna = dna[:k] + dna[0] + dna[k + 1:]
         script = {'seed': rng.randrange(1 << 30), 'p_enter': 0.05, 'observe': 'light', 'log_hp': True, 'hyperparameters': decl,
                   'dna': dna, 'sl': 0.01, 'tp': 0.01, 'entry': 'market'}
         if dna and rng.random() < 0.4:
@@ -141,7 +180,9 @@ def _part2(job):
         if explicit is not None:
             expect[sym] = explicit
         elif dna:
-            expect[sym] = jh.dna_to_hp(real_decl, dna)
+            expect[sym] = _ref_decode(real_decl, dna)
+            if len(set(dna)) < len(dna):
+                cnt['session_dnas_with_repeated_letters'] = cnt.get('session_dnas_with_repeated_letters', 0) + 1
         elif decl:
             expect[sym] = {h['name']: h['default'] for h in decl}
         else:
@@ -163,7 +204,7 @@ def _part2(job):
             sym = e['symbol']
             exp = expect[sym]
             got = e['hp']
-            same = (got is None and exp is None) or (got is not None and exp is not None and got == dict(exp))
+            same = (got is None and exp is None) or (got is not None and exp is not None and _same_hp(got, dict(exp)))
             if not same and sym not in seen:
                 seen[sym] = True
                 order = [r['symbol'] for r in routes]
